@@ -63,11 +63,18 @@ func c20WorldSwap(t *testing.T, g *rng) *c20Rich {
 	w.opExtCreate(0, "uharbor", sdk.NewInt(7000000), 3, 3600, 81, false, false)
 	w.opExtCreate(1, "ucmdx", sdk.NewInt(int64(1+g.intn(9))*1000000), 2, 3600, 81, false, false)
 	w.opRangedPool() // pool 4 on pair 1
+	// a farmer of the ranged pool (its pool id is not a pair id): active after the blocks below
+	execMsg(a, w.ctx, liqtypes.NewMsgFarm(fx.appL, 4, addrN(90), sdk.NewCoin(liqtypes.PoolCoinDenom(fx.appL, 4), sdk.NewInt(int64(1+g.intn(500))*1000000))))
 	w.opSwapFees(0, sdk.NewInt(123456))
 	nb := 1 + g.intn(3)
 	for i := 0; i < nb; i++ {
-		w.opBegin(g.pickI(43201, 43201, 86401, 3600))
+		dt := g.pickI(43201, 43201, 86401, 3600)
+		if i == 0 {
+			dt = 86401 // a day: every farmer queued so far becomes active
+		}
+		w.opBegin(dt)
 	}
+	w.opBegin(6)
 	w.opFarm(5, fx.pools[0], sdk.NewInt(4000000)) // queued again
 	w.opFarm(6, fx.pools[2], sdk.NewInt(int64(1+g.intn(100))*10000))
 	w.opUnfarm(1, fx.pools[0], sdk.NewInt(1000))
@@ -140,6 +147,7 @@ func c20WorldSwap(t *testing.T, g *rng) *c20Rich {
 		exec("deposit", liqtypes.NewMsgDeposit(fx.appL, addrN(14), fx.pools[0], sdk.NewCoins(sdk.NewCoin("ucmst", sdk.NewInt(2*amt)), sdk.NewCoin("ucmdx", sdk.NewInt(amt)))))
 		exec("deposit", liqtypes.NewMsgDeposit(fx.appL, addrN(14), fx.pools[2], sdk.NewCoins(sdk.NewCoin("ucmst", sdk.NewInt(3)), sdk.NewCoin("uharbor", sdk.NewInt(1))))) // fails in the batch
 		exec("withdraw", liqtypes.NewMsgWithdraw(fx.appL, addrN(1+round), fx.pools[1], sdk.NewCoin(liqtypes.PoolCoinDenom(fx.appL, fx.pools[1]), sdk.NewInt(1000000+amt))))
+		exec("farm", liqtypes.NewMsgFarm(fx.appL, ranged[1].Id, lp, sdk.NewCoin(ranged[1].PoolCoinDenom, sdk.NewInt(amt)))) // queued, in the second pool of pair 2
 		exec("farm", liqtypes.NewMsgFarm(fx.appL, fx.pools[1], addrN(3+round), sdk.NewCoin(liqtypes.PoolCoinDenom(fx.appL, fx.pools[1]), sdk.NewInt(amt))))
 	}
 	batchOrders(0)
